@@ -13,7 +13,7 @@ import re
 import warnings
 from collections import OrderedDict
 
-from .. import core, corpus, pyre, tlc, tok
+from .. import core, corpus, pyre, sanchild, tlc, tok
 from ..tok import dec, enc
 
 DEFECTS = ["data-content-type-after-stripping", "css-url-function-survives"]
@@ -461,6 +461,62 @@ def restricted_config(rng, base):
 
 # ------------------------------------------------------------------------------------------------
 
+# several URI-valued attributes on ONE element.  EXCEPTIONAL: values that send their attribute down a rare path of the URI
+# check (urlsplit raising ValueError - certain and "may" cases -, the data: branch, degenerate values); FORBIDDEN: values that
+# must go.  Every ordered pair of URI-valued attribute names gets both role assignments, so that the order in which the
+# filter visits its SET of attribute names cannot hide a dependency between attributes.
+URI_EXCEPTIONAL = ["//[", "h://]", "http://[::1", "http://x]/", "http://[abc]/", "http://a\u2100b/", "//[v1.x]:y/", "javascript://[",
+                   "http://[::1]/", "data:image/png,x", "data:text/html,x", "data:", "data:image/png", "DATA:image/gif;base64,x",
+                   "", " ", "\t\n", "#f", ":", "x:", "//", "\x00", "&amp;", "http://a/b", "mailto:a@b", "/rel?x=1", "//\uff0f"]
+URI_FORBIDDEN = ["javascript:alert(1)", " java\tscript:alert(2)", "vbscript:msgbox(3)", "data:text/html,<script>alert(4)</script>",
+                 "JaVaScRiPt:x", "livescript:x", "javascript://[%0aalert(1)"]
+NSPREFIX = {XLINK: "xlink:", "http://www.w3.org/XML/1998/namespace": "xml:"}
+
+
+def uri_attr_names():
+    """the URI-valued attributes of the Filter under test (its own lists, harvested - never an oracle) that can be written in
+    markup: plain ones and xlink:/xml: ones (which the parser namespaces inside svg)"""
+    f = san().Filter([])
+    keys = [k for k in f.attr_val_is_uri if _is_pair(k) and k in f.allowed_attributes and (k[0] is None or k[0] in NSPREFIX)]
+    return sorted(keys, key=repr)
+
+
+def multi_uri_piece(rng, assign):
+    """assign: [(key, value)] -> source of ONE element carrying all of them"""
+    foreign = any(k[0] is not None for k, v in assign)
+    at = " ".join('%s%s="%s"' % (NSPREFIX.get(k[0], ""), k[1], src_escape(rng, v)) for k, v in assign)
+    return ("<svg><a %s>x</a></svg>" if foreign else "<a %s>x</a>") % at
+
+
+def multi_uri_sources(ctx):
+    rng, q = ctx.rng, ctx.quick
+    keys = uri_attr_names()
+    out = []
+
+    def add(assign):
+        out.append(("multi-uri", {"attrs": [[k[0], k[1], enc(v)] for k, v in assign]}, multi_uri_piece(rng, assign)))
+    certain = URI_EXCEPTIONAL[:4]
+    n = 0
+    for a in keys:
+        for b in keys:
+            if a == b:
+                continue
+            # a takes the exceptional path, b is forbidden; (b, a) comes round as its own ordered pair = the role swap
+            for e in certain[:2]:
+                add([(a, e), (b, URI_FORBIDDEN[n % len(URI_FORBIDDEN)])])
+                n += 1
+            for e in (rng.sample(URI_EXCEPTIONAL, 3) if q else URI_EXCEPTIONAL):
+                for f in ([rng.choice(URI_FORBIDDEN)] if q else URI_FORBIDDEN[:4]):
+                    add([(a, e), (b, f)])
+                    add([(b, f), (a, e)])          # the same set written in the other source order
+    # what an attacker sends: the payload in one attribute, every (or many) other URI attribute(s) exceptional
+    for _ in range(400 if q else 4000):
+        ks = rng.sample(keys, rng.randint(3, len(keys)))
+        bad = set(rng.sample(ks, rng.choice([1, 1, 2])))
+        add([(k, rng.choice(URI_FORBIDDEN) if k in bad else rng.choice(certain if rng.random() < 0.5 else URI_EXCEPTIONAL)) for k in ks])
+    return out
+
+
 def build_sources(ctx):
     """list of (kind, meta, source text); kind "doc" = a whole document / fragment, anything else = a piece that is
     parsed inside a marker div together with many others"""
@@ -500,6 +556,7 @@ def build_sources(ctx):
     for v in REF_VALUES:
         for t in ('<svg><rect fill="%s"></rect></svg>', '<svg><use xlink:href="%s" clip-path="url(x y)"></use></svg>'):
             add_piece("ref", t, v)
+    out += multi_uri_sources(ctx)
     return out
 
 
@@ -562,6 +619,7 @@ def run_traces(ctx, listed):
                                        "properties/keywords/svg properties, svg-ref attributes; 1/2 with a live local-href name list)")
     consts = "CONSTANT KnownDefects = {%s}\n" % ",".join('"%s"' % d for d in listed)
     kinds, raised, lost, ncases, shown = {}, 0, 0, 0, False
+    multi = []
     before = ctx.traces
     for bi, chunk in enumerate(core.batched(sources, 5000)):
         items, dropped = parse_sources(chunk)
@@ -569,6 +627,8 @@ def run_traces(ctx, listed):
         # everything under the default configuration; documents under 2 random restricted ones, most values under 1
         per_cfg = [[] for _ in configs]
         for it in items:
+            if it[0] == "multi-uri":
+                multi.append(it)
             per_cfg[0].append(it)
             reps = 2 if it[0] == "doc" else 1
             if it[0] in ("url-wide", "url-core", "css") and rng.random() < (0.5 if ctx.quick else 0.3):
@@ -606,6 +666,34 @@ def run_traces(ctx, listed):
                 else:
                     ctx.violation("Trace_Sanitizer: %s at token %d, clauses %s (%s, configuration %d)"
                                   % (r["v"], r["i"], r["cl"], kind, ci), case, key=None)
+    # the filter visits a SET of attribute names: the multi-attribute cases again in child interpreters with other hash seeds
+    # (default configuration and one restricted configuration); same trace specification, same verdict policy
+    if multi:
+        part = multi if len(multi) <= 3000 else rng.sample(multi, 3000)
+        streams = [[tok.proj_token(t) for t in it[3]] for it in part]
+        traces, where = [], []
+        for hs, ci in ((1, 0), (2, 0), (3, rng.randrange(1, len(configs)))):
+            res = sanchild.run(hs, kw_to_json(configs[ci]), streams)
+            for g0 in range(0, len(part), 60):
+                cases = [{"inp": streams[i], "out": res[i]["out"], "exc": res[i]["exc"] is not None} for i in range(g0, min(g0 + 60, len(part)))]
+                traces.append({"L": project_lists(_TR["lists"][ci], cases), "cases": [compact_case(c) for c in cases]})
+                where.append((hs, ci, g0))
+                ncases += len(cases)
+                kinds["multi-uri@hashseed"] = kinds.get("multi-uri@hashseed", 0) + len(cases)
+        ident = {id(t): i for i, t in enumerate(traces)}
+        for tr, rec in core.validate_traces(ctx, "Trace_Sanitizer", traces, "trace-hashseed", consts=consts, batch_bytes=12 << 20):
+            hs, ci, g0 = where[ident[id(tr)]]
+            for item in rec["f"]:
+                r = item["r"]
+                kind, meta, src, toks = part[g0 + item["c"] - 1]
+                case = {"kind": "trace", "hashseed": hs, "config": kw_to_json(configs[ci]), "inp": streams[g0 + item["c"] - 1],
+                        "meta": dict(meta, source=src), "verdict": r}
+                if r["v"] == "finding":
+                    for nm in r["f"]:
+                        ctx.known_finding(nm, "unsafe output explained by " + nm, case)
+                else:
+                    ctx.violation("Trace_Sanitizer: %s at token %d, clauses %s (multi-uri under PYTHONHASHSEED=%d, configuration %d)"
+                                  % (r["v"], r["i"], r["cl"], hs, ci), case, key=None)
     ctx.notes["cases_by_kind"] = kinds
     ctx.notes["cases_where_filter_raised"] = raised
     ctx.notes["sources"] = {"built": len(sources), "lost_in_parse": lost}
@@ -628,6 +716,9 @@ def run(ctx):
                      "trace url values": "all sequences <= %d of 26 fragments on a[href]; all <= %d of 8 core fragments on svg a[xlink:href]; "
                                          "%d seeded random (fragment sequences 3-6 of 39 fragments, obfuscated schemes) over 22 attribute slots, 1/3 entity-encoded"
                                          % ((2, 4, 12000) if q else (3, 5, 50000)),
+                     "trace multi-uri": "ONE element with several URI-valued attributes (every ordered pair of the Filter's own %s URI attribute names, "
+                                        "exceptional-path value x forbidden value, both source orders; plus seeded 3..all-attribute elements), "
+                                        "also in child interpreters under PYTHONHASHSEED=1,2,3" % len(uri_attr_names()),
                      "trace css values": "all sequences <= 2 of %d fragments + %d seeded random sequences (3-%d of 66 fragments) + %d structured declaration lists (28 property names x 70 keyword-like values)"
                                          % ((35, 4000, 7, 5000) if q else (66, 25000, 8, 25000))}
     ctx.rule = ("MC: every value / token / style in the bound, theorems on the intended model, code-faithful model replayed exactly. "
@@ -763,7 +854,11 @@ def replay(case):
     else:
         print("replay: nothing to re-run for this case (see the TLC output it points to)")
         return 1
-    out, exc = run_filter([tok.unproj_token(t) for t in inp], kw)
+    if c.get("hashseed") is not None:
+        r = sanchild.run(c["hashseed"], kw_to_json(kw), [inp])[0]
+        out, exc = r["out"], r["exc"]
+    else:
+        out, exc = run_filter([tok.unproj_token(t) for t in inp], kw)
     cases = [{"inp": inp, "out": out, "exc": exc is not None}]
     trace = {"L": project_lists(filter_lists(kw), cases), "cases": [compact_case(x) for x in cases]}
     rej = core.validate_traces(ctx, "Trace_Sanitizer", [trace], "replay", consts=consts)
